@@ -144,6 +144,15 @@ func genAdm(t *rapid.T) AdmCase {
 				cands = append(cands, v.Key, v.Key)
 			}
 		}
+		for _, v := range c.StartVals { // former authorities: CA at start-up, not CA any more
+			still := false
+			for _, w := range c.CurVals {
+				still = still || (w.Key == v.Key && w.CA)
+			}
+			if v.CA && !still {
+				cands = append(cands, v.Key, v.Key, v.Key, v.Key)
+			}
+		}
 		cands = append(cands, rapid.IntRange(0, poolSize-1).Draw(t, "anySigner"))
 		a.Signer = rapid.SampledFrom(cands).Draw(t, "signer")
 		a.Over = a.Announce
